@@ -200,6 +200,34 @@ def diff_cases(clsname, ctx):
                                         "nested instance attribute %r is not in _PROTECTED_KEYS" % n))
     r0.destroy()
     class_attrs = set(dir(klass))
+    # attribute assignment to a class-level data descriptor with a setter (e.g. the `filename` property) must
+    # reach the object itself and never become a data item
+    for name in sorted(class_attrs):
+        desc = None
+        for base in klass.__mro__:
+            if name in vars(base):
+                desc = vars(base)[name]
+                break
+        if isinstance(desc, property) and desc.fset is not None and not name.startswith("_"):
+            for depth in (0, 1):
+                res["evaluations"] += 1
+                r1, o1 = fresh()
+                other = env.resource_for(clsname, {"elsewhere": 1})
+                try:
+                    t1 = navigate(o1, depth)
+                    value = getattr(other, "path", "v") if name == "filename" else getattr(t1, name)
+                    try:
+                        setattr(t1, name, value)
+                    except Exception:  # noqa: BLE001
+                        pass
+                    view = model.to_plain(r1.make(clsname)())
+                    node = model.get_at(view, ("sub",) * depth)
+                    if isinstance(node, dict) and name in node:
+                        res["violations"].append(_v(clsname, "set:descriptor:%s@d%d" % (name, depth), "descriptor-shadowed",
+                                                    "obj.%s = ... stored a data item %r instead of using the class's setter" % (name, name)))
+                finally:
+                    r1.destroy()
+                    other.destroy()
     for depth in (0, 1, 2):
         for grp, key in pool:
             special = key in klass._PROTECTED_KEYS or key.startswith("__") or key in class_attrs
